@@ -52,17 +52,18 @@ type MockProvider struct {
 	ReturnCtx  bool          // return ctx.Err() instead of nil on cancel
 	IgnoreStop time.Duration // keep running this long after cancel (slow stop)
 
-	ch         chan *MockAmmo
-	once       sync.Once
-	Acquired   atomic.Int64
-	Released   atomic.Int64
-	Misuse     atomic.Int64 // double release, release of non-acquired
-	RunStart   atomic.Int64
-	RunReturn  atomic.Int64
-	FaultFired atomic.Bool
-	misuseMu   sync.Mutex
-	MisuseLog  []string
-	closeOnce  sync.Once
+	ch          chan *MockAmmo
+	once        sync.Once
+	Acquired    atomic.Int64
+	Released    atomic.Int64
+	ExhaustedAt atomic.Int64 // first time Acquire returned ok=false
+	Misuse      atomic.Int64 // double release, release of non-acquired
+	RunStart    atomic.Int64
+	RunReturn   atomic.Int64
+	FaultFired  atomic.Bool
+	misuseMu    sync.Mutex
+	MisuseLog   []string
+	closeOnce   sync.Once
 }
 
 func (p *MockProvider) init() {
@@ -117,6 +118,7 @@ func (p *MockProvider) Acquire() (core.Ammo, bool) {
 	p.init()
 	a, ok := <-p.ch
 	if !ok {
+		p.ExhaustedAt.CompareAndSwap(0, time.Now().UnixNano())
 		return nil, false
 	}
 	if !a.state.CompareAndSwap(ammoPooled, ammoAcquired) {
@@ -256,6 +258,8 @@ type GunPlan struct {
 	WarmUps     atomic.Int64
 	Closer      bool
 	OnShoot     func(g *MockGun, a *MockAmmo, entry time.Time)
+	OnBind      func(g *MockGun)
+	OnClose     func(g *MockGun)
 
 	newGunCalls atomic.Int64
 	bindCalls   atomic.Int64
@@ -331,6 +335,7 @@ type MockGun struct {
 	Closed      atomic.Int32
 	ClosedAt    atomic.Int64
 	Ctx         context.Context
+	User        any
 }
 
 type closerGun struct{ *MockGun }
@@ -340,6 +345,9 @@ func (g *closerGun) Close() error {
 	g.ClosedAt.Store(time.Now().UnixNano())
 	if g.inflight.Load() != 0 {
 		g.plan.problem("gun of instance %d closed while a shot is in flight", g.InstanceID)
+	}
+	if g.plan.OnClose != nil {
+		g.plan.OnClose(g.MockGun)
 	}
 	return nil
 }
@@ -357,6 +365,9 @@ func (g *MockGun) Bind(aggr core.Aggregator, deps core.GunDeps) error {
 	g.aggr = aggr
 	g.InstanceID = deps.InstanceID
 	g.Ctx = deps.Ctx
+	if g.plan.OnBind != nil {
+		g.plan.OnBind(g)
+	}
 	return nil
 }
 
@@ -417,11 +428,25 @@ type RecSchedule struct {
 	mu     sync.Mutex
 	Tokens []TokenRec
 	last   sync.Map // goid -> TokenRec
+	// FinishSeenAt is the first time a caller observed the schedule as finished
+	// (Next returned !ok or Left returned 0); 0 = never.
+	FinishSeenAt atomic.Int64
+}
+
+func (r *RecSchedule) Left() int {
+	l := r.Schedule.Left()
+	if l == 0 {
+		r.FinishSeenAt.CompareAndSwap(0, time.Now().UnixNano())
+	}
+	return l
 }
 
 func (r *RecSchedule) Next() (time.Time, bool) {
 	t, ok := r.Schedule.Next()
 	rec := TokenRec{T: t, OK: ok, Goid: Goid(), After: time.Now()}
+	if !ok {
+		r.FinishSeenAt.CompareAndSwap(0, rec.After.UnixNano())
+	}
 	r.last.Store(rec.Goid, rec)
 	r.mu.Lock()
 	r.Tokens = append(r.Tokens, rec)
